@@ -5,6 +5,7 @@ import (
 	"errors"
 	"fmt"
 	"io"
+	"strings"
 	"sync"
 
 	"verifsim/sim"
@@ -351,7 +352,7 @@ func (s *srvWriteStream) SendAndClose(r *bytestream.WriteResponse) error {
 
 func (w *writeClientStream) start(first *bytestream.WriteRequest) {
 	w.started = true
-	w.c.park(w.method, first.GetResourceName())
+	w.c.park(w.method, stripUploadID(first.GetResourceName()))
 	w.fault = w.c.take("PUT")
 	if w.fault != nil {
 		w.c.S.Fault("backend.b2.Write." + w.fault.Kind)
@@ -433,4 +434,18 @@ func (w *writeClientStream) RecvMsg(m any) error {
 func NewGRPCProxy(conn *SimConn, mode string, uploaders, queue int) cache.Proxy {
 	clients := grpcproxy.NewGrpcClientsVerif(conn)
 	return grpcproxy.New(clients, mode, discardLogger, discardLogger, uploaders, queue)
+}
+
+// stripUploadID removes the random upload id from a ByteStream write resource
+// name ("uploads/<uuid>/blobs/..."): labels must not contain anything random.
+func stripUploadID(n string) string {
+	i := strings.Index(n, "uploads/")
+	if i < 0 {
+		return n
+	}
+	rest := n[i+len("uploads/"):]
+	if j := strings.IndexByte(rest, '/'); j >= 0 {
+		return n[:i] + "uploads/" + rest[j+1:]
+	}
+	return n
 }
